@@ -351,6 +351,28 @@ class TrapDelivery(WireUnit):
         if ok:
             ctx.check(oname("C19", T, "ensures", "exactly-the-bindings-sent(uptime,trap-oid,payload-in-order)"),
                       And(*[And(interp.eq(vbs[i][0], oids[i]), interp.eq(vbs[i][1], vals[i])) for i in range(n)]))
+        # a second notification with the SAME octets from another sender (a retransmission through another path, two agents
+        # sending identical notifications): delivered as well, with ITS origin, and the Trap delivered first keeps its own
+        info2 = Obj(get_cls(rt, interp, "puresnmp.typevars:SocketInfo"), {"address": ctx.fresh_str("peer2_address"), "port": ctx.fresh_int("peer2_port")})
+        packet2 = Obj(get_cls(rt, interp, "puresnmp.typevars:SocketResponse"), {"data": raw, "info": info2})
+        exc2 = None
+        try:
+            interp.call(captured["decode"], [packet2], {})
+        except PyExc as pe:
+            exc2 = pe.obj
+        ok = exc2 is None and len(called) == 2 and len(scheduled) == 2
+        ctx.check(oname("C19", T, "ensures", "an-identical-datagram-from-another-sender-is-delivered-too(exactly-once)"), ok)
+        if ok:
+            def src_is(t, inf):
+                s_ = t.fields.get("source") if isinstance(t, Obj) else None
+                return s_ is inf or (isinstance(s_, Obj) and And(interp.eq(s_.fields.get("address"), inf.fields["address"]),
+                                                                 interp.eq(s_.fields.get("port"), inf.fields["port"])))
+            ctx.check(oname("C19", T, "ensures", "second-delivery-carries-its-own-senders-address"), src_is(called[1], info2))
+            ctx.check(oname("C19", T, "ensures", "the-trap-delivered-first-keeps-its-senders-address"), src_is(called[0], info))
+            vbs1 = rt.getattr(interp, called[0], "value").fields.get("varbinds")
+            ctx.check(oname("C19", T, "ensures", "the-trap-delivered-first-keeps-its-bindings"),
+                      isinstance(vbs1, list) and len(vbs1) == n and
+                      And(*[And(interp.eq(vbs1[i][0], oids[i]), interp.eq(vbs1[i][1], vals[i])) for i in range(n)]))
         return "delivered"
 
 
